@@ -209,7 +209,7 @@ def struct_unpack_from(ip, args, kwargs, exact=False):
     if exact:
         err = n != sz
         eff = z3.IntVal(0)
-    elif isinstance(offset, int) and offset >= 0:
+    elif (isinstance(offset, int) and offset >= 0) or zu._entails(off >= 0):
         eff = off
         err = n - off < sz
     else:
